@@ -198,7 +198,23 @@ def oracleC12 (c : Case) : Option (List String) :=
       let nm := match kind with
         | 0 => "C12.mul_comm" | 1 => "C12.mul_assoc" | 2 => "C12.comul_comm" | 3 => "C12.comul_assoc"
         | 4 => "C12.de_morgan" | _ => "C12.de_morgan_dual"
-      check nm (QB.close (16 * τ) l r)
+      -- associativity of mul is ill-conditioned where the base rates approach 1: the inner product's base rate ax*ay is stored
+      -- ROUNDED, the outer call needs 1 - ax*ay, and the relative error of that difference (up to eps / (1 - ax*ay)) goes
+      -- straight into the weights (1-a)/(1-a*a'); each single call is accurate to 1.5 eps for the operands it receives
+      -- (second bug hunt, C12: 6e6 eps at 1 - a = 2^-27 in f64).  The information is lost by the (b, d, u, a)
+      -- representation, not by the operator, so the law is checked with that conditioning unless both inner products are
+      -- exactly representable (then nothing is lost and the tight tolerance applies); dually for comul near 0 nothing is
+      -- lost (small numbers keep their relative precision).
+      let p : Nat := match c.fmt with | .f64 => 53 | .f32 => 24
+      let representable (q : Rat) : Bool := (q.den &&& (q.den - 1)) == 0 && decide (q.num.natAbs < 2 ^ p)
+      let slack : Rat :=
+        if kind != 1 then 0 else
+        let pxy := x.a * y.a
+        let pyz := y.a * z.a
+        if representable pxy && representable pyz then 0 else
+        let m := if pxy ≤ pyz then pyz else pxy
+        if m < 1 then 4 * c.eps / (1 - m) else 0
+      check nm (QB.close (16 * τ + slack) l r)
   | _ => none
 
 /-- simplex triple at offset -/
@@ -208,8 +224,41 @@ def triAt (xs : Array Rat) (off : Nat) : Rat × Rat × Rat :=
 def triWf (t : Rat × Rat × Rat) : Bool :=
   decide (0 ≤ t.1) && decide (0 ≤ t.2.1) && decide (0 ≤ t.2.2) && decide (t.1 + t.2.1 + t.2.2 = 1)
 
-/-- C14: binomial deduction -/
-def oracleC14 (c : Case) : Option (List String) :=
+/-- STRICT sign clause `C14.masses_nonneg` (repair cf81fd9: `BOpinion::deduce` clamps `b = bi - ay k` and `d = di - (1-ay) k` at
+    zero before the division by `s = b + d + u`).  Evaluated on the exact rationals decoded from the output bits, NO tolerance:
+    on every `ok`, finite result of `bdeduce` -- and on each of the two results of `bdeduce_sym` -- `b ≥ 0`, `d ≥ 0`, `0 ≤ u ≤ 1`.
+    Operand class: every operand mass (antecedent and both conditionals) finite and `≥ 0` exactly, `0 ≤ a_x ≤ 1`, `0 < a_y < 1`;
+    NO condition on any sum, on the projected probability or on the guard bands.  There the clause holds by construction in
+    floating point: `ui` is a sum of products of non-negative values (`1 - a_x ≥ 0`), both bounds `ka`, `kb` are quotients of
+    non-negative products (the differences `b0 - b1`, .. have the sign the case selector just tested; `a_y > 0`, `1 - a_y > 0`), so
+    `k ≥ 0` and `u = ui + k ≥ 0`; `b`, `d` are clamped; `s = (b + d) + u ≥ u ≥ 0` by monotone rounding, so the three quotients
+    are `≥ 0` and `u / s ≤ 1` (`s = 0` gives NaN: not finite, not judged here).  At the exact semantics:
+    `C14_masses_nonneg_gen`.  An operand mass in `[-4ε, 0)`, which the constructors tolerate, can make `ui` (not clamped)
+    negative: such operands are outside the class (the clause is restricted, the operator is not required to repair its
+    operands).  Before the repair the residue of an exactly-zero belief / disbelief (down to -2^-56 relative to the grid; a
+    negative mass in 8e-5 of the 1/16 grid, 0.3 % of decimal grids) was returned, tolerated by the constructor and fed to
+    later operators. -/
+def signClauseC14 (c : Case) : Option (List String) :=
+  if c.cls != "ok" || !(c.op == "bdeduce" || c.op == "bdeduce_sym") then none else
+  match allSome c.inp, allSome c.out with
+  | some xs, some out =>
+    if xs.size < 11 then none else
+    let x := qbAt xs 0
+    let c0 := triAt xs 4
+    let c1 := triAt xs 7
+    let ay := xs.getD 10 0
+    let nn3 (t : Rat × Rat × Rat) : Bool := decide (0 ≤ t.1) && decide (0 ≤ t.2.1) && decide (0 ≤ t.2.2)
+    if !(nn3 (x.b, x.d, x.u) && nn3 c0 && nn3 c1 && decide (0 ≤ x.a) && decide (x.a ≤ 1)
+          && decide (0 < ay) && decide (ay < 1)) then none else
+    let resOk (r : QB) : Bool := decide (0 ≤ r.b) && decide (0 ≤ r.d) && decide (0 ≤ r.u) && decide (r.u ≤ 1)
+    if c.op == "bdeduce" then
+      if out.size < 4 then none else some (check "C14.masses_nonneg" (resOk (qbAt out 0)))
+    else
+      if out.size < 8 then none else some (check "C14.masses_nonneg" (resOk (qbAt out 0) && resOk (qbAt out 4)))
+  | _, _ => none
+
+/-- C14: binomial deduction (the clauses of the property on its stated domain; `oracleC14` adds the strict sign clause) -/
+def oracleC14Core (c : Case) : Option (List String) :=
   match allSome c.inp with
   | none => none
   | some xs =>
@@ -272,6 +321,13 @@ def oracleC14 (c : Case) : Option (List String) :=
       let slack : Rat := if negExact then 0 else c.eps / minQ ay (1 - ay)
       check (if swapX then "C14.swap_x" else "C14.swap_y") (QB.close (64 * τ + slack) l r)
   | _ => none
+
+/-- C14: binomial deduction: the property's clauses on its domain plus `C14.masses_nonneg` on the wider operand class -/
+def oracleC14 (c : Case) : Option (List String) :=
+  match signClauseC14 c, oracleC14Core c with
+  | none, r => r
+  | some fs, some r => some (fs ++ r)
+  | some fs, none => some fs
 
 /-- every entry of `x` lies between the corresponding entries of `l` and `r` (±δ) -/
 def betweenL (δ : Rat) (x l r : List Rat) : Bool :=
@@ -1118,6 +1174,40 @@ def accClauses (c : Case) : Option (List String) :=
     some (check "C02.ecm_result_accepted_by_constructor" (c.flags.getD 1 false && (c.flags.getD 2 false || !sameA)))
   else none
 
+/-- STRICT sign clauses (repair 8520ade: `uncertainty_maximized` clamps the rounding residue of `p[i] - a[i]*u_max` at zero before
+    `Simplex::normalized`).  Evaluated on the exact rationals decoded from the output bits, NO tolerance:
+    * `C09.max_masses_nonneg`: on every `ok`, finite result of `umax` every belief mass is `≥ 0` and the uncertainty is in `[0, 1]`;
+    * `C02.ecm_masses_nonneg` / `C03.ecm_masses_nonneg`: the same for the simplex of every `ok`, finite epistemic cumulative fusion.
+    Operand class: every operand entry (masses, uncertainty, base rate) is finite and `≥ 0` exactly, for fusion also both
+    uncertainties `≤ 1`; NO condition on any sum and none on the guard bands.  There the clause holds by construction in floating
+    point: projections `(b + a u)/Σ` are `≥ 0`, hence `u_max = min(1, p/a ..) ≥ 0`; the clamped masses are `≥ 0`; their total
+    with `u_max` is `≥ u_max` by monotone rounding, so a finite quotient is in `[0, 1]` (`C09_maximized_masses_nonneg_gen`,
+    `C02_ecm_masses_nonneg_gen` are the statements at the exact semantics).  An operand mass in `[-ε, 0)`, which the constructors
+    tolerate, makes `u_max` (not clamped) negative: such operands are outside the class.  Before the repair the residue `-ε/4`
+    was returned by 0.4-3 % of ECm fusions on dyadic / decimal grids. -/
+def signClauses (c : Case) : Option (List String) :=
+  if c.cls != "ok" then none else
+  match allSome c.inp, allSome c.out with
+  | some xs, some out =>
+    let n := c.ints.getD 0 0
+    let nn (l : List Rat) : Bool := l.all fun v => decide (0 ≤ v)
+    let resOk (b' : List Rat) (u' : Rat) : Bool := nn b' && decide (0 ≤ u') && decide (u' ≤ 1)
+    if c.prop == "C09" && c.op == "umax" then
+      if xs.size != 2 * n + 1 || out.size != n + 1 then none else
+      let (b, u, a) := opinionAt xs 0 n
+      if !(nn b && decide (0 ≤ u) && nn a) then none else
+      some (check "C09.max_masses_nonneg" (resOk (slice out 0 n) (out.getD n 0)))
+    else if (c.prop == "C02" || c.prop == "C03") && (c.op == "fuse" || c.op == "fuse_os") && c.ints.getD 1 0 == 1 then
+      let isOS := c.op == "fuse_os"
+      if xs.size != (if isOS then 3 * n + 2 else 4 * n + 2) || out.size != 2 * n + 1 then none else
+      let (b1, u1, a1) := opinionAt xs 0 n
+      let (b2, u2, a2) :=
+        if isOS then (slice xs (2 * n + 1) n, xs.getD (3 * n + 1) 0, a1) else opinionAt xs (2 * n + 1) n
+      if !(nn b1 && nn a1 && nn b2 && nn a2 && decide (0 ≤ u1) && decide (u1 ≤ 1) && decide (0 ≤ u2) && decide (u2 ≤ 1)) then none else
+      some (check (c.prop ++ ".ecm_masses_nonneg") (resOk (slice out 0 n) (out.getD n 0)))
+    else none
+  | _, _ => none
+
 def oracleProp (c : Case) : Option (List String) :=
   match c.prop with
   | "C07" => oracleC07 c
@@ -1141,6 +1231,10 @@ def oracleProp (c : Case) : Option (List String) :=
 
 def oracle (c : Case) : Option (List String) :=
   let r := match accClauses c, oracleProp c with
+    | none, r => r
+    | some fs, some r => some (fs ++ r)
+    | some fs, none => some fs
+  let r := match signClauses c, r with
     | none, r => r
     | some fs, some r => some (fs ++ r)
     | some fs, none => some fs
